@@ -31,7 +31,8 @@ ExtraGroup ==
      MkP(<<84, 88, 84>>, <<>>, 0, TCHAR, <<4, 2>>, <<<<97, 98>>, <<>>>>),                               \* padded cells, one of them empty
      MkP(<<69, 77, 80, 84, 89>>, <<>>, 0, TFLOAT, <<0>>, <<>>),
      MkP(<<70, 76, 84>>, <<>>, 0, TFLOAT, <<2>>, <<<<0, 0, 128, 127>>, <<1, 0, 0, 128>>>>),             \* +inf, negative denormal
-     MkP(<<79, 78, 69>>, <<>>, 0, TCHAR, <<1>>, <<<<122>>>>) >>]                                        \* one character
+     MkP(<<79, 78, 69>>, <<>>, 0, TCHAR, <<1>>, <<<<122>>>>),
+     MkP(<<76, 79, 78, 71>>, <<>>, 0, TCHAR, <<200>>, <<<<104, 105>>>>) >>]                              \* one-dimensional text declared 200 long, holding "hi"                                        \* one character
 WithEvents(o) == [o EXCEPT !.hdr.nev = 2, !.hdr.evt = [i \in 1..18 |-> IF i = 1 THEN <<0, 0, 128, 63>> ELSE IF i = 2 THEN <<0, 0, 32, 65>> ELSE FZero],
                            !.hdr.evd = [i \in 1..9 |-> IF i = 1 THEN 257 ELSE 0],
                            !.hdr.evl = [i \in 1..18 |-> IF i = 1 THEN <<69, 86, 84, 49>> ELSE IF i = 2 THEN <<69, 50>> ELSE <<>>], !.hdr.gap = 65535]
@@ -123,6 +124,6 @@ ASSUME Lemma_S16_LE16 /\ Lemma_U16_LE16 /\ Lemma_S8_Low /\ Lemma_S16_Range /\ Le
 
 MC_PNames == {}  MC_ANames == {}  MC_PRates == {}  MC_ARates == {}
 MC_FrameKinds == {}  MC_ColKinds == {}  MC_Tags == {1}  MC_CallerIds == {}  MC_UserParams == <<>>  MC_LockNames == {}
-Dump == PrintT(ToJson([path |-> hist, op |-> lastOp', out |-> lastOut', post |-> Abs(obj'),
+Dump == ~Sampled(Len(hist)) \/ PrintT(ToJson([path |-> hist, op |-> lastOp', out |-> lastOut', post |-> Abs(obj'),
                        bytes |-> IF lastOp'.op = "Reload" /\ lastOut' # "range_error" THEN WriterModel(obj) ELSE <<>>]))
 =========================================================================
